@@ -458,6 +458,35 @@ func execRSA(p *Plan, run *core.Run) {
 		run.Probe("subset-of-exactly-k")
 	}
 	var sig []byte
+	// the combiner's inputs are operands: they are what they were after the call
+	var before [][]byte
+	for i := range sigShares {
+		b, _ := sigShares[i].MarshalBinary()
+		before = append(before, b)
+	}
+	padKeep := append([]byte{}, msgPH...)
+	defer func() {
+		if len(run.Viol) > 0 {
+			return
+		}
+		for i := range sigShares {
+			if b, _ := sigShares[i].MarshalBinary(); !bytes.Equal(b, before[i]) {
+				run.Violate(comp+".CombineSignShares", "operation-modifies-its-operand", "signature share %d of %d encodes differently after CombineSignShares", i, len(sigShares))
+				return
+			}
+		}
+		if !bytes.Equal(padKeep, msgPH) {
+			run.Violate(comp+".CombineSignShares", "operation-modifies-its-operand", "the padded message changed")
+			return
+		}
+		if uint(len(sigShares)) >= k && sig != nil {
+			run.Fault("history:shares-combined-again")
+			sig2, err2 := tssrsa.CombineSignShares(pub, sigShares, msgPH)
+			if err2 != nil || !bytes.Equal(sig2, sig) {
+				run.Violate(comp+".CombineSignShares", "second-combine-differs", "combining the same %d shares again: err=%v", len(sigShares), err2)
+			}
+		}
+	}()
 	pan, v, st := core.Try(func() { sig, err = tssrsa.CombineSignShares(pub, sigShares, msgPH) })
 	if pan {
 		run.Violate(comp+".CombineSignShares", core.PanicClass(v), "players %v of (l=%d,k=%d): %s at %s", alive, l, k, v, st)
